@@ -512,8 +512,8 @@ impl Family for C01 {
 
     fn runs(t: Tier) -> u64 {
         match t {
-            Tier::Quick => 400_000,
-            Tier::Thorough => 30_000_000,
+            Tier::Quick => 2_000_000,
+            Tier::Thorough => 100_000_000,
         }
     }
 
